@@ -556,6 +556,11 @@ def _rerun_task(case):
     rep = _dispatch(t)
     if rep.violations:
         return rep.violations[0]['what']
+    if kind == 'wide' and t[-1] is not None:
+        # the failure may depend on what the slice did before this case: the whole slice
+        rep = _dispatch(t[:-1] + (None,))
+        if rep.violations:
+            return rep.violations[0]['what']
     return None
 
 
